@@ -363,6 +363,12 @@ theorem volIdeal_split (px : PixelInfo) (w h d : Nat) : ∀ (a level b : Nat),
     have : level + 1 + a = level + (a + 1) := by omega
     rw [this]; omega
 
+theorem volIdeal_succ_right (px : PixelInfo) (w h d level a : Nat) :
+    volIdeal px w h d level (a + 1) = volIdeal px w h d level a +
+      px.surfIdeal (mipSize w (level + a)) (mipSize h (level + a)) * mipSize d (level + a) := by
+  rw [volIdeal_split px w h d a level 1]
+  simp [volIdeal]
+
 theorem volIdeal_prefix_le (px : PixelInfo) (w h d level a b : Nat) (hab : a ≤ b) :
     volIdeal px w h d level a ≤ volIdeal px w h d level b := by
   have : b = a + (b - a) := by omega
@@ -725,5 +731,138 @@ theorem VolIter.Inv.skipMipmapsP {it : VolIter} (v : it.Inv) :
         unfold VolIter.elapsed
         rw [hd]; omega
       · rw [if_neg hc]; exact ⟨rfl, hd⟩
+
+
+/-! ### `advance` adds the length of the current surface to the elapsed bytes -/
+
+theorem TexIter.Inv.advance_elapsed {it : TexIter} (v : it.Inv) (hi : it.idx < it.len) :
+    it.advance.elapsed = it.elapsed +
+      it.first.px.surfIdeal (mipSize it.first.w it.level) (mipSize it.first.h it.level) := by
+  have hl : it.level < it.first.mips := by
+    cases v.cursor with
+    | inl h' => exact h'.2
+    | inr h' => omega
+  have hm := v.mips_lt
+  have hlen := v.len_lt
+  unfold TexIter.advance
+  rw [if_pos hi]
+  have hmod : (it.level + 1) % U8 = it.level + 1 := Nat.mod_eq_of_lt (by unfold U8; omega)
+  rw [hmod]
+  have hsucc := texIdeal_succ_right it.first.px it.first.w it.first.h 0 it.level
+  simp only [Nat.zero_add] at hsucc
+  by_cases hn : it.level + 1 < it.first.mips
+  · rw [if_pos hn]
+    show it.idx * it.T + texIdeal it.first.px it.first.w it.first.h 0 (it.level + 1) = _
+    unfold TexIter.elapsed; omega
+  · rw [if_neg hn]
+    have hmod2 : (it.idx + 1) % U32 = it.idx + 1 := Nat.mod_eq_of_lt (by omega)
+    rw [hmod2]
+    show (it.idx + 1) * it.T + texIdeal it.first.px it.first.w it.first.h 0 0 = _
+    have e : it.level + 1 = it.first.mips := by omega
+    rw [e] at hsucc
+    unfold TexIter.elapsed TexIter.T
+    simp only [texIdeal, Nat.add_zero]
+    rw [Nat.add_mul, Nat.one_mul]; omega
+
+theorem TexIter.Inv.rewind_elapsed_le {it : TexIter} (v : it.Inv) :
+    it.rewind.elapsed ≤ it.elapsed := by
+  unfold TexIter.rewind
+  by_cases hl : it.level > 0
+  · rw [if_pos hl]
+    show it.idx * it.T + texIdeal it.first.px it.first.w it.first.h 0 (it.level - 1) ≤ it.elapsed
+    have := texIdeal_prefix_le it.first.px it.first.w it.first.h 0 (it.level - 1) it.level (by omega)
+    unfold TexIter.elapsed; omega
+  · rw [if_neg hl]
+    by_cases hi : it.idx > 0
+    · rw [if_pos hi]
+      have hm := v.mips_lt
+      have hp := v.mips_pos
+      have hmod : (it.first.mips + U8 - 1) % U8 = it.first.mips - 1 := by
+        have : it.first.mips + U8 - 1 = (it.first.mips - 1) + U8 := by omega
+        rw [this, Nat.add_mod_right]
+        exact Nat.mod_eq_of_lt (by unfold U8; omega)
+      rw [hmod]
+      show (it.idx - 1) * it.T + texIdeal it.first.px it.first.w it.first.h 0 (it.first.mips - 1)
+        ≤ it.elapsed
+      have h1 := texIdeal_prefix_le it.first.px it.first.w it.first.h 0 (it.first.mips - 1)
+        it.first.mips (by omega)
+      have e : it.idx = (it.idx - 1) + 1 := by omega
+      unfold TexIter.elapsed TexIter.T at *
+      rw [e, Nat.add_mul, Nat.one_mul]
+      simp only [Nat.add_sub_cancel]
+      omega
+    · rw [if_neg hi]; exact Nat.le_refl _
+
+theorem VolIter.Inv.advance_elapsed {it : VolIter} (v : it.Inv) (hl : it.level < it.volume.mips) :
+    ∃ it', it.advanceP = some it' ∧ it'.elapsed = it.elapsed + it.volume.sliceLen it.level := by
+  have hd : it.depth < mipSize it.volume.d it.level := by
+    cases v.cursor with
+    | inl h => exact h.2
+    | inr h => omega
+  have hdl := mipSize_lt_U32 it.volume.d it.level v.d_lt
+  unfold VolIter.advanceP
+  rw [v.valid.getP, if_pos hl]
+  have hmod : (it.depth + 1) % U32 = it.depth + 1 := Nat.mod_eq_of_lt (by omega)
+  simp only [hmod]
+  by_cases hn : it.depth + 1 < mipSize it.volume.d it.level
+  · rw [if_pos hn]
+    refine ⟨_, rfl, ?_⟩
+    show volIdeal it.volume.px it.volume.w it.volume.h it.volume.d 0 it.level
+      + (it.depth + 1) * it.volume.sliceLen it.level = _
+    unfold VolIter.elapsed
+    rw [Nat.add_mul, Nat.one_mul]; omega
+  · rw [if_neg hn]
+    have hm := v.mips_lt
+    have hmod2 : (it.level + 1) % U8 = it.level + 1 := Nat.mod_eq_of_lt (by unfold U8; omega)
+    rw [hmod2]
+    refine ⟨_, rfl, ?_⟩
+    show volIdeal it.volume.px it.volume.w it.volume.h it.volume.d 0 (it.level + 1)
+      + 0 * it.volume.sliceLen (it.level + 1) = _
+    have h1 := volIdeal_succ_right it.volume.px it.volume.w it.volume.h it.volume.d 0 it.level
+    simp only [Nat.zero_add] at h1
+    have e : mipSize it.volume.d it.level = it.depth + 1 := by omega
+    unfold VolIter.elapsed Volume.sliceLen at *
+    rw [h1, e, Nat.mul_comm (it.volume.px.surfIdeal _ _), Nat.add_mul, Nat.one_mul]
+    omega
+
+theorem VolIter.Inv.rewind_elapsed_le {it : VolIter} (v : it.Inv) :
+    ∃ it', it.rewindP = some it' ∧ it'.elapsed ≤ it.elapsed := by
+  unfold VolIter.rewindP
+  by_cases hd : it.depth > 0
+  · rw [if_pos hd]
+    refine ⟨_, rfl, ?_⟩
+    show volIdeal it.volume.px it.volume.w it.volume.h it.volume.d 0 it.level
+      + (it.depth - 1) * it.volume.sliceLen it.level ≤ it.elapsed
+    have : (it.depth - 1) * it.volume.sliceLen it.level ≤ it.depth * it.volume.sliceLen it.level :=
+      Nat.mul_le_mul_right _ (by omega)
+    unfold VolIter.elapsed; omega
+  · rw [if_neg hd]
+    by_cases hl : it.level > 0
+    · rw [if_pos hl]
+      have hle := v.level_le
+      rw [v.valid.getP, if_pos (by omega : it.level - 1 < it.volume.mips)]
+      simp only
+      have hdl := mipSize_lt_U32 it.volume.d (it.level - 1) v.d_lt
+      have hdp := mipSize_pos it.volume.d (it.level - 1)
+      have hmod : (mipSize it.volume.d (it.level - 1) + U32 - 1) % U32 =
+          mipSize it.volume.d (it.level - 1) - 1 := by
+        have : mipSize it.volume.d (it.level - 1) + U32 - 1 =
+            (mipSize it.volume.d (it.level - 1) - 1) + U32 := by omega
+        rw [this, Nat.add_mod_right]
+        exact Nat.mod_eq_of_lt (by omega)
+      rw [hmod]
+      refine ⟨_, rfl, ?_⟩
+      show volIdeal it.volume.px it.volume.w it.volume.h it.volume.d 0 (it.level - 1)
+        + (mipSize it.volume.d (it.level - 1) - 1) * it.volume.sliceLen (it.level - 1) ≤ it.elapsed
+      have h1 := volIdeal_succ_right it.volume.px it.volume.w it.volume.h it.volume.d 0 (it.level - 1)
+      have e : it.level - 1 + 1 = it.level := by omega
+      rw [e] at h1
+      simp only [Nat.zero_add] at h1
+      have h2 : (mipSize it.volume.d (it.level - 1) - 1) * it.volume.sliceLen (it.level - 1) ≤
+          it.volume.sliceLen (it.level - 1) * mipSize it.volume.d (it.level - 1) := by
+        rw [Nat.mul_comm]; exact Nat.mul_le_mul_left _ (by omega)
+      unfold VolIter.elapsed Volume.sliceLen at *
+      omega
+    · rw [if_neg hl]; exact ⟨it, rfl, Nat.le_refl _⟩
 
 end Dds
